@@ -96,11 +96,16 @@ func localEq(a, b *parser.ASTNode) (eq bool, rawOnly bool) {
 	return true, false
 }
 
+// ignoreRaw makes the comparison blind for the raw flag: used to look for any
+// other difference first, so that a text with raw strings AND another defect is
+// reported with the other defect's signature.
+var ignoreRaw bool
+
 func treeEq(a, b *parser.ASTNode) bool {
 	if a == nil || b == nil {
 		return a == b
 	}
-	if eq, _ := localEq(a, b); !eq {
+	if eq, rawOnly := localEq(a, b); !eq && !(rawOnly && ignoreRaw) {
 		return false
 	}
 	for i := range a.Children {
@@ -140,12 +145,21 @@ func findDiff(parent, a, b *parser.ASTNode) *treeDiff {
 		pname = parent.Name
 	}
 	eq, rawOnly := localEq(a, b)
+	if rawOnly && ignoreRaw {
+		eq = true
+	}
 	if !eq {
 		if rawOnly {
 			return &treeDiff{"raw-flag-lost", fmt.Sprintf("string %q: AllowEscapes %v -> %v", a.Token.Val, a.Token.AllowEscapes, b.Token.AllowEscapes)}
 		}
 		if len(a.Children) == 0 {
 			return &treeDiff{"tree-changed:" + pname + "/" + a.Name, fmt.Sprintf("under %q:\n%svs\n%s", pname, nodeStr(a), nodeStr(b))}
+		}
+		// a rotation (the usual effect of lost parentheses): the operand which took the place of its operator names the cause
+		for _, ch := range a.Children {
+			if ch.Name == b.Name && len(ch.Children) > 0 {
+				return &treeDiff{"tree-changed:" + a.Name + "/" + ch.Name, fmt.Sprintf("%svs\n%s", nodeStr(a), nodeStr(b))}
+			}
 		}
 		return &treeDiff{"tree-changed:" + a.Name + "/" + pickChild(a, nil).Name, fmt.Sprintf("%svs\n%s", nodeStr(a), nodeStr(b))}
 	}
@@ -162,6 +176,29 @@ func findDiff(parent, a, b *parser.ASTNode) *treeDiff {
 		return findDiff(a, a.Children[ds[0]], b.Children[ds[0]])
 	}
 	return &treeDiff{"tree-changed:" + a.Name + "/" + pickChild(a, ds).Name, fmt.Sprintf("%svs\n%s", nodeStr(a), nodeStr(b))}
+}
+
+// diffTrees reports a structural difference if there is one, else a lost raw flag.
+func diffTrees(a, b *parser.ASTNode) *treeDiff {
+	ignoreRaw = true
+	d := findDiff(nil, a, b)
+	ignoreRaw = false
+	if d == nil && !treeEq(a, b) {
+		d = firstRawDiff(a, b)
+	}
+	return d
+}
+
+func firstRawDiff(a, b *parser.ASTNode) *treeDiff {
+	if _, rawOnly := localEq(a, b); rawOnly {
+		return &treeDiff{"raw-flag-lost", fmt.Sprintf("string %q: AllowEscapes %v -> %v", a.Token.Val, a.Token.AllowEscapes, b.Token.AllowEscapes)}
+	}
+	for i := range a.Children {
+		if d := firstRawDiff(a.Children[i], b.Children[i]); d != nil {
+			return d
+		}
+	}
+	return nil
 }
 
 // pickChild names the child of the differing subtree for the signature: the
@@ -366,6 +403,11 @@ func firstDiffConstruct(p1, p2 string, t2 *parser.ASTNode) (string, int) {
 		line++
 	}
 	line++ // 1-based
+	// a difference in blank lines belongs to the construct before them
+	limit := line
+	if (line-1 < len(l1) && strings.TrimSpace(l1[line-1]) == "") || (line-1 < len(l2) && strings.TrimSpace(l2[line-1]) == "") {
+		limit = line - 1
+	}
 	best := ""
 	bestLine := -1
 	var walk func(parent, n *parser.ASTNode)
@@ -374,7 +416,7 @@ func firstDiffConstruct(p1, p2 string, t2 *parser.ASTNode) (string, int) {
 			return
 		}
 		if n.Token != nil && n.Name != parser.NodeSTATEMENTS && (parent == nil || parent.Name == parser.NodeSTATEMENTS) {
-			if n.Token.Lline <= line && n.Token.Lline >= bestLine {
+			if n.Token.Lline <= limit && n.Token.Lline >= bestLine {
 				best, bestLine = n.Name, n.Token.Lline
 			}
 		}
@@ -488,7 +530,7 @@ func roundTrip(c Case) *hx.Failure {
 		done("reparse-fails")
 		return hx.Failf("reparse-fails:"+errType(err), "source    %q\nformatted %q\nthe formatted text does not parse: %v", clip(src), clip(p1), err)
 	}
-	if d := findDiff(nil, t1, t2); d != nil {
+	if d := diffTrees(t1, t2); d != nil {
 		done("tree-changed")
 		return hx.Failf(d.sig, "source    %q\nformatted %q\nthe formatted text parses to a different tree: %s", clip(src), clip(p1), d.detail)
 	}
@@ -613,7 +655,7 @@ func runFiles(c Case) *hx.Failure {
 			t2, perr, ppf := parse(after)
 			if ppf != nil || perr != nil {
 				fail = hx.Failf("formatfiles:unparseable-written", "%s: %q was replaced by %q which does not parse: %v %v", fe.Path, clip(fe.Content), clip(after), perr, ppf)
-			} else if d := findDiff(nil, origs[i].tree, t2); d != nil {
+			} else if d := diffTrees(origs[i].tree, t2); d != nil {
 				fail = hx.Failf("formatfiles:"+d.sig, "%s: %q was replaced by %q which parses to a different tree: %s", fe.Path, clip(fe.Content), clip(after), d.detail)
 			}
 		}
